@@ -464,7 +464,11 @@ class XsdGen:
                 self.feat.add("element-ref")
         # substitution group: head <- m1 <- m2 (transitive), referenced from a sequence of some type
         if rng.random() < self.subst_p and main.ctypes and not self.simple:
-            host = rng.choice([c for c in main.ctypes if c.content is not None and c.content.kind == "sequence" and not any(isinstance(x, AnyP) for x in iter_particles(c.content))] or [None])
+            def mixed_chain(c):  # (an element reference added to a type with a mixed base: open known finding of C02)
+                return c is not None and (c.mixed or mixed_chain(c.base))
+
+            host = rng.choice([c for c in main.ctypes if c.content is not None and c.content.kind == "sequence" and not any(isinstance(x, AnyP) for x in iter_particles(c.content))
+                               and (self.allow_known_findings or not mixed_chain(c))] or [None])
             if host is not None:
                 ht = rng.choice([SimpleT(None, rng.choice(["string", "int", "date"])), rng.choice(main.ctypes)])
                 head = ElemDecl(self.gname("head"), ht, is_global=True, ns=main.tns)
@@ -495,7 +499,7 @@ def sanitize_nillable(ct, seen, optional=False):
     """Keep the triggers of the open C02 findings about xsi:nil / mixed content out of the population
     (each has a dedicated probe in vf/props/c02.py): nillable only on elements that are always present
     (not minOccurs=0, not a branch of a choice, not below an optional group), whose type is simple, that
-    have no default and do not sit in a mixed type; no QName-valued children in mixed types."""
+    have no fixed value and do not sit in a mixed type; no QName-valued children in mixed types."""
     if id(ct) in seen:
         return
     seen.add(id(ct))
@@ -522,7 +526,7 @@ def sanitize_nillable(ct, seen, optional=False):
                 walk(x, opt)
             elif isinstance(x, ElemDecl):
                 t = x.type
-                if x.nillable and (opt or mixed or x.min == 0 or x.default is not None or x.fixed is not None or not isinstance(t, SimpleT)):
+                if x.nillable and (opt or mixed or x.min == 0 or x.fixed is not None or not isinstance(t, SimpleT)):
                     x.nillable = False  # (complex content that happens to be empty is written back as nil: C01's open finding nillable-field-object-without-content)
                 if mixed and (qname_typed(t) or (isinstance(t, ComplexT) and qname_content(t))):
                     x.type = SimpleT(None, "string")
